@@ -4,7 +4,8 @@
 EXTENDS Fractal, Json
 CONSTANT GenLen
 VARIABLE hist
-GHome == [c \in Leaves |-> IF c \in {"c1", "c2", "l1"} THEN "S" ELSE IF c \in {"c3", "c4", "l2"} THEN "r1" ELSE "r2"]
+GRHome == [r \in Relays |-> IF r = "r3" THEN "r1" ELSE "S"]
+GHome == [c \in Leaves |-> IF c \in {"c1", "c2", "l1"} THEN "S" ELSE IF c \in {"c3", "c4"} THEN "r1" ELSE IF c = "c5" THEN "r2" ELSE "r3"]
 RS(X) == RandomElement(IF Len(hist) >= 0 THEN X ELSE {})
 Log(r, x) == hist' = Append(hist, r) /\ R' = x
 GInit == Init /\ hist = <<>>
